@@ -1017,49 +1017,99 @@ func c20Observe(c *Check, P string, fn *ssa.Function, kind string, setters, gett
 		}
 	}
 	c.Report(ok, P+".O3", "METRICS-ALWAYS", dcl, obs[0].Pos(), kind+" Observe", "every path of the deferred closure observes, except on the already-observed edge")
+	// the label set is the same on every path: a key written on one path to Observe is written on all of them (With panics
+	// on a label set that differs from the registered one — after every success, if the key is written for failures only)
+	{
+		byKey := map[string][]ssa.Instruction{}
+		AllInstrs(dcl, func(in ssa.Instruction) {
+			if mu, ok := in.(*ssa.MapUpdate); ok {
+				if k, isK := ConstString(mu.Key); isK {
+					byKey[k] = append(byKey[k], in)
+				}
+			}
+		})
+		var keys []string
+		for k := range byKey {
+			keys = append(keys, k)
+		}
+		sort.Strings(keys)
+		for _, k := range keys {
+			re := ReachEntry(dcl, NewCut().AddInstrs(byKey[k]...))
+			c.Report(!re[obs[0]], P+".O3", "METRICS-LABEL-SET-UNIFORM", dcl, byKey[k][0].Pos(), kind+" label "+k, "a label written in the observing closure is written on every path to Observe (the label set handed to With is the registered one on successes and on failures alike)")
+		}
+	}
 	// success label from the named error result
 	cell := ResultCell(fn, fn.Signature.Results().Len()-1)
 	if cell == nil {
 		c.Undecided(P+".O3", "METRICS-LABEL", fn, fn.Pos(), kind+" success label", "the error is not a named result visible to the deferred closure")
 		return
 	}
-	errNil, errSet := NilEdges(dcl, IsLoadOfCell(cell))
-	c.Floor(P+".O3", kind+": test of the named error result in the deferred closure", len(errNil), 1)
-	label := func(in ssa.Instruction) (string, bool) {
-		mu, ok := in.(*ssa.MapUpdate)
-		if !ok {
-			return "", false
-		}
-		v, isS := ConstString(mu.Value)
-		if !isS || (v != "true" && v != "false") {
-			return "", false
-		}
-		return v, true
-	}
-	facts := LastLabelAt(dcl, obs[0], [][]Edge{errNil, errSet}, label)
-	okLab := len(facts) > 0
-	var wit []string
-	sawT, sawF := false, false
-	for _, f := range facts {
-		switch {
-		case f.Took&2 != 0: // error != nil
-			sawF = true
-			if f.Label != "false" {
-				okLab = false
-				wit = append(wit, fmt.Sprintf("a path through the error != nil edge reaches Observe with success=%q", f.Label))
+	// the label computed in one expression: strconv.FormatBool(err == nil), stored on every path to Observe and nothing else
+	{
+		var computed []*ssa.MapUpdate
+		nConst := 0
+		AllInstrs(dcl, func(in ssa.Instruction) {
+			mu, ok := in.(*ssa.MapUpdate)
+			if !ok {
+				return
 			}
-		case f.Took&1 != 0: // error == nil
-			sawT = true
-			if f.Label != "true" {
-				okLab = false
-				wit = append(wit, fmt.Sprintf("a path through the error == nil edge reaches Observe with success=%q", f.Label))
+			if v, isS := ConstString(mu.Value); isS && (v == "true" || v == "false") {
+				nConst++
 			}
-		default:
-			okLab = false
-			wit = append(wit, "a path reaches Observe without testing the error")
+			call, isCall := mu.Value.(*ssa.Call)
+			if !isCall || CalleeName(call) != "strconv.FormatBool" {
+				return
+			}
+			bo, isBO := call.Call.Args[0].(*ssa.BinOp)
+			if isBO && bo.Op == token.EQL && ((IsLoadOfCell(cell)(bo.X) && IsNilConst(bo.Y)) || (IsLoadOfCell(cell)(bo.Y) && IsNilConst(bo.X))) {
+				computed = append(computed, mu)
+			}
+		})
+		if len(computed) == 1 && nConst == 0 {
+			c.Report(Dominates(dcl, computed[0], obs[0]), P+".O3", "METRICS-LABEL", dcl, obs[0].Pos(), kind+" success label", "the success label is FormatBool(named error == nil), stored on every path to Observe")
+			goto labelDone
 		}
 	}
-	c.Report(okLab && sawT && sawF, P+".O3", "METRICS-LABEL", dcl, obs[0].Pos(), kind+" success label", "on every path to Observe the last success label stored agrees with (named error == nil)", wit...)
+	{
+		errNil, errSet := NilEdges(dcl, IsLoadOfCell(cell))
+		c.Floor(P+".O3", kind+": test of the named error result in the deferred closure", len(errNil), 1)
+		label := func(in ssa.Instruction) (string, bool) {
+			mu, ok := in.(*ssa.MapUpdate)
+			if !ok {
+				return "", false
+			}
+			v, isS := ConstString(mu.Value)
+			if !isS || (v != "true" && v != "false") {
+				return "", false
+			}
+			return v, true
+		}
+		facts := LastLabelAt(dcl, obs[0], [][]Edge{errNil, errSet}, label)
+		okLab := len(facts) > 0
+		var wit []string
+		sawT, sawF := false, false
+		for _, f := range facts {
+			switch {
+			case f.Took&2 != 0: // error != nil
+				sawF = true
+				if f.Label != "false" {
+					okLab = false
+					wit = append(wit, fmt.Sprintf("a path through the error != nil edge reaches Observe with success=%q", f.Label))
+				}
+			case f.Took&1 != 0: // error == nil
+				sawT = true
+				if f.Label != "true" {
+					okLab = false
+					wit = append(wit, fmt.Sprintf("a path through the error == nil edge reaches Observe with success=%q", f.Label))
+				}
+			default:
+				okLab = false
+				wit = append(wit, "a path reaches Observe without testing the error")
+			}
+		}
+		c.Report(okLab && sawT && sawF, P+".O3", "METRICS-LABEL", dcl, obs[0].Pos(), kind+" success label", "on every path to Observe the last success label stored agrees with (named error == nil)", wit...)
+	}
+labelDone:
 	// the defer is registered before the inner call on the counted path
 	var innerCalls []ssa.CallInstruction
 	if kind == "publisher" {
